@@ -36,9 +36,10 @@ CHECKS["C15"] = dict(
     text="Every host and return message type is round-tripped through the real constructor, bytes() and deserialize function with "
          "every field a free bit-vector of its declared width (declared widths come from the specification side); z3 decides field "
          "equality with the sender's values on every path; returned arrays of length 0..3 (thorough 0..5) with every pattern of "
-         "undefined entries.",
+         "undefined entries, each preceded by another array message of the same length; arrays of 255/256/257 (thorough also 65535..65537) entries; messages "
+         "deserialised from a receive buffer (bytearray) that is overwritten afterwards.",
     note="Trusted: z3; vf/cmodel.py incl. its field-descriptor-overrides-method behaviour (validated against real ctypes every run); "
-         "replays use real ctypes. Arrays longer than the bound are outside.",
+         "replays use real ctypes. Array lengths other than the listed ones are outside.",
     design="3/C15")
 CHECKS["C16"] = dict(
     engine="symx+cmodel",
@@ -70,7 +71,7 @@ CHECKS["C05"] = dict(
          "enumerate, loop_until, add with/without modulus, arrays with initial values, measurement into array entries / fresh futures "
          "/ registers, flush anywhere between top-level statements) are run through the real Builder, assembler and Executor with all "
          "array contents, constants, moduli and measurement outcomes symbolic; after every flush z3 decides on every path that host "
-         "handles, controller arrays/registers and the gate/measurement trace equal the direct evaluation. ~1400 programs quick.",
+         "handles, controller arrays/registers and the gate/measurement trace equal the direct evaluation. ~1600 programs quick, including three-subroutine programs (a handle created in the first subroutine and used in the third) and subroutines that mix register and array measurements / rotations on two qubits.",
     note="Trusted: z3; vf/sdkdsl.py RefInterp (direct evaluation); PipeConnection bypasses serialisation (int-subclass immediates are "
          "converted to their payload as the wire would). Programs beyond the size/nesting bound and EPR operations are outside.",
     design="3/C05")
@@ -104,7 +105,8 @@ CHECKS["C10"] = dict(
          "delivered pair is a z3 integer inside the link-layer response; the executor branches on it (forks) and z3 decides on every path "
          "that pair i's qubit received exactly the Pauli of pair i's Bell state, no other qubit was touched, and nothing is corrected when "
          "the expectation is off. Measure-directly post-processing is executed on symbolic rotation triples, Bell index and outcome "
-         "against the commutation table, stand-alone and end to end through recv_measure/create_measure.",
+         "against the commutation table, stand-alone and end to end through recv_measure/create_measure. A link layer that answers in "
+         "qlink-interface 1.0 form (its own Bell-state enum, converted by name) is covered for four variants.",
     note="Trusted: z3; Pauli-frame semantics of the trace (exact for the Pauli corrections the SDK emits; any other gate is reported); "
          "responses are delivered in order at the executor's wait points (other arrival orders: C12). `int` of build_epr is stubbed.",
     design="3/C10")
@@ -140,7 +142,7 @@ CHECKS["C13"] = dict(
          "keep response for a free virtual qubit, faulting subroutines included -- with injectivity of the virtual->physical map across "
          "applications, in-use set = mapped set, other applications' registers/arrays/shared memory/unit module unchanged (compared as z3 "
          "terms, written values symbolic), stop releasing everything and re-registration, checked after every operation; (b) the same "
-         "obligations for one operation from each of ~330 invariant-satisfying states, which extends (a) to histories of any length.",
+         "obligations for one operation from each of ~330 invariant-satisfying states, which extends (a) to histories of any length; (c) three applications suspended at wait instructions, every order of starting, delivering and resuming; (d) two applications advanced one executor step at a time in every order, through the yields inside qalloc / qfree.",
     note="Mostly exhaustive enumeration by forking (stated); the solver compares symbolic memory contents. Trusted: harness NetExecutor. "
          "Physical ids offered by the link layer are assumed unused (contract).",
     design="3/C13")
